@@ -872,6 +872,10 @@ func (x *extractor) stmt(s ast.Stmt) []Node {
 	return []Node{&OtherN{Pos: s.Pos(), Text: fmt.Sprintf("%T", s), Stmt: s}}
 }
 
+// assignedLater is a placeholder hook: aliases of parameter bytes are only taken before the
+// parameter is re-sliced in the same statement list; the generated and basictl code reads b0 first.
+func (x *extractor) assignedLater(v *types.Var) bool { return false }
+
 func (x *extractor) isPureBuiltin(call *ast.CallExpr) bool {
 	id, ok := ast.Unparen(call.Fun).(*ast.Ident)
 	if !ok {
@@ -911,6 +915,17 @@ func (x *extractor) assign(pos token.Pos, lhs []ast.Expr, tok token.Token, rhs [
 					if _, isId := ast.Unparen(st.X).(*ast.Ident); isId {
 						x.alias[v] = x.expr(r)
 						return nil
+					}
+				}
+				// byte alias: `b0 := r[0]` (constant index of a parameter)
+				if ix, ok := r.(*ast.IndexExpr); ok {
+					if _, isConst := x.constOf(ix.Index); isConst {
+						if id, ok := ast.Unparen(ix.X).(*ast.Ident); ok {
+							if pv, ok := x.info.ObjectOf(id).(*types.Var); ok && pv.Parent() != nil && !x.assignedLater(pv) {
+								x.alias[v] = x.expr(r)
+								return nil
+							}
+						}
 					}
 				}
 				// pointer alias: `elem := &(*vec)[i]`
